@@ -16,6 +16,21 @@ KANI_DIR = os.path.join(VERIF, 'kani')
 GEN_DIR = os.path.join(VERIF, 'out', 'kani-gen')
 TARGET_DIR = os.path.join(VERIF, 'out', 'kani-target')
 MEM_LIMIT = 24 * 1024 ** 3
+# cargo features per crate (toml_edit's de/ser modules exist only with `serde`)
+FEATURES = {'toml_edit': ['serde']}
+# cargo package spec per crate (`toml` alone is ambiguous: toml 0.5 is in the lock file too)
+PKGSPEC = {}
+
+
+def pkgspec(crate, repo='/repo'):
+    if crate != 'toml':
+        return crate
+    try:
+        txt = open(os.path.join(repo, 'crates', 'toml', 'Cargo.toml')).read()
+        m = re.search(r'(?m)^version\s*=\s*"([^"]+)"', txt)
+        return 'toml@' + m.group(1)
+    except Exception:
+        return crate
 
 
 def _limits():
@@ -104,15 +119,21 @@ def run_harnesses(crate, harnesses, repo='/repo', jobs=8, harness_timeout=600, t
     export = os.path.join(VERIF, 'out', 'kani-export-%s-%d.json' % (crate, os.getpid()))
     if os.path.exists(export):
         os.remove(export)
-    cmd = ['cargo', 'kani', '-p', crate, '--target-dir', TARGET_DIR, '-j', str(jobs),
+    cmd = ['cargo', 'kani', '-p', pkgspec(crate, repo), '--target-dir', TARGET_DIR, '-j', str(jobs),
            '--output-format', 'terse', '-Z', 'function-contracts', '-Z', 'stubbing',
            '-Z', 'unstable-options', '--harness-timeout', '%ds' % harness_timeout,
            '--export-json', export]
+    if FEATURES.get(crate):
+        cmd += ['--features', ','.join(FEATURES[crate])]
     for h in harnesses:
         cmd += ['--harness', h]
     cmd += list(extra_args)
     total_timeout = total_timeout or (harness_timeout * (1 + len(harnesses) // max(1, jobs)) + 600)
     rc, out, wall, timed_out = sh(cmd, total_timeout, cwd=repo, env=kani_env())
+    logdir = os.path.join(VERIF, 'out', 'kani-logs')
+    os.makedirs(logdir, exist_ok=True)
+    with open(os.path.join(logdir, '%s-%d.log' % (crate, os.getpid())), 'w') as lf:
+        lf.write(' '.join(cmd) + '\n' + out)
     results = {}
     raw = {'cmd': ' '.join(cmd), 'rc': rc, 'wall_s': wall, 'timed_out': timed_out, 'tail': out[-6000:]}
     js = None
@@ -121,17 +142,19 @@ def run_harnesses(crate, harnesses, repo='/repo', jobs=8, harness_timeout=600, t
             js = json.load(open(export))
         except ValueError:
             js = None
-        os.remove(export)
+        os.replace(export, os.path.join(logdir, 'last-export-%s-%d.json' % (crate, os.getpid())))
     build_failed = ('error: could not compile' in out) or ('error[E' in out and js is None)
     raw['build_failed'] = build_failed
     by_short = {}
     if js:
         meta = {m['pretty_name']: m for m in js.get('harness_metadata', [])}
-        stats = {c['harness_id']: c.get('cbmc_stats', {}) for c in js.get('cbmc', [])}
-        for r in js['verification_results']['results']:
+        stats = {c['harness_id']: (c.get('cbmc_stats') or {}) for c in js.get('cbmc', [])}
+        for r in (js.get('verification_results') or {}).get('results') or []:
+            if not r or not r.get('harness_id'):
+                continue
             hid = r['harness_id']
             short = hid.split('::')[-1]
-            checks = r.get('checks', [])
+            checks = r.get('checks') or []
             failed = [c for c in checks if c['status'] in ('Failure', 'FAILURE', 'Failed')]
             undet = [c for c in checks if c['status'] in ('Undetermined', 'UNDETERMINED', 'Unreachable_undetermined')]
             covers = [c for c in checks if c.get('category') == 'cover']
@@ -139,17 +162,17 @@ def run_harnesses(crate, harnesses, repo='/repo', jobs=8, harness_timeout=600, t
             unwind_fail = [c for c in failed if c.get('category') == 'unwind']
             asserts = [c for c in checks if c.get('category') not in ('cover',)]
             by_short[short] = {
-                'harness': hid, 'status': r['status'], 'duration_s': r.get('duration_ms', 0) / 1000.0,
+                'harness': hid, 'status': r.get('status') or 'unknown', 'duration_s': r.get('duration_ms', 0) / 1000.0,
                 'n_checks': len(asserts), 'n_failed': len(failed),
                 'failed': [{'category': c.get('category'), 'description': c['description'],
                             'function': c.get('function'),
-                            'location': '%s:%s' % (c['location'].get('file'), c['location'].get('line'))}
+                            'location': '%s:%s' % ((c.get('location') or {}).get('file'), (c.get('location') or {}).get('line'))}
                            for c in failed[:20]],
                 'undetermined': len(undet),
                 'covers': len(covers), 'uncovered': [c['description'] for c in uncovered],
                 'unwind_failures': len(unwind_fail),
-                'solver_s': stats.get(hid, {}).get('runtime_decision_procedure_s'),
-                'symex_s': stats.get(hid, {}).get('runtime_symex_s'),
+                'solver_s': (stats.get(hid) or {}).get('runtime_decision_procedure_s'),
+                'symex_s': (stats.get(hid) or {}).get('runtime_symex_s'),
                 'source': meta.get(hid, {}).get('source'),
             }
     # harnesses missing from the export: timed out / crashed / not found
@@ -172,10 +195,12 @@ def run_harnesses(crate, harnesses, repo='/repo', jobs=8, harness_timeout=600, t
 
 def concrete_playback(crate, harness, repo='/repo', timeout=900):
     """re-run one failing harness with concrete playback; returns list of byte vectors"""
-    cmd = ['cargo', 'kani', '-p', crate, '--target-dir', TARGET_DIR, '--harness', harness, '--exact'
+    cmd = ['cargo', 'kani', '-p', pkgspec(crate, repo), '--target-dir', TARGET_DIR, '--harness', harness, '--exact'
            if False else '--harness', harness,
            '--output-format', 'terse', '-Z', 'function-contracts', '-Z', 'stubbing',
            '-Z', 'concrete-playback', '--concrete-playback=print']
+    if FEATURES.get(crate):
+        cmd += ['--features', ','.join(FEATURES[crate])]
     rc, out, wall, to = sh(cmd, timeout, cwd=repo, env=kani_env())
     vecs = []
     m = re.search(r'let concrete_vals: Vec<Vec<u8>> = vec!\[(.*?)\n\s*\];', out, re.S)
@@ -208,8 +233,10 @@ def warm(repo='/repo'):
     """compile the hooked crates for Kani once (codegen only) so that later checks start fast"""
     ensure_gen(repo)
     for crate in ('toml_edit', 'toml_datetime', 'toml'):
-        cmd = ['cargo', 'kani', '-p', crate, '--target-dir', TARGET_DIR, '--only-codegen',
+        cmd = ['cargo', 'kani', '-p', pkgspec(crate, repo), '--target-dir', TARGET_DIR, '--only-codegen',
                '-Z', 'function-contracts', '-Z', 'stubbing']
+        if FEATURES.get(crate):
+            cmd += ['--features', ','.join(FEATURES[crate])]
         rc, out, wall, to = sh(cmd, 1800, cwd=repo, env=kani_env())
         print('warm %s rc=%s %.0fs' % (crate, rc, wall))
 
